@@ -34,6 +34,11 @@ def jobs_for(tier):
             for ntail in range(0, 3 if tier == 'quick' else 4):
                 jobs.append(dict(id='tail/%s/%s/tail%d' % (i, codec, ntail), kind='tail', template=i,
                                  codec=codec, ntail=ntail, tier=tier, numeric_enums=False))
+    for i in ['octets', 'ia5', 'seq-basic', 'choice-ext', 'combo-str-seq', 'set-basic', 'bits'] + \
+            (['seq-ext', 'tag-explicit', 'utf8', 'setof'] if tier == 'thorough' else []):
+        for ntail in range(0, 3):
+            jobs.append(dict(id='variant-tail/%s/ber/tail%d' % (i, ntail), kind='tail', variant=True, template=i,
+                             codec='ber', ntail=ntail, tier=tier, numeric_enums=False))
     return jobs
 
 
@@ -143,22 +148,39 @@ def make_harness(job):
                                   **({'int_abs': 1 << 17} if job['tier'] == 'quick' else {})))
     eq = Equiv(cj.gen, 0)
     ntail = job['ntail']
+    variant = job.get('variant')
+    if variant:
+        from models import x690
+        cj.bounds.n_len = 1
+        cj.bounds.int_abs = 1 << 9
+        model = x690.DerModel(cj.parsed)
 
     def harness(ctx):
         cj.cands.attach(ctx)
         with shimmed(C.CODEC_MODS):
             v = cj.value(ctx)
             tail = ctx.bytes('tail', ntail)
-            ctx.describe = lambda m: {'value': jsonable(concretize(v, m)), 'tail': tail.concrete(m).hex()}
+            st = {}
+            ctx.describe = lambda m: {'value': jsonable(concretize(v, m)), 'tail': tail.concrete(m).hex(),
+                                      'message': st['enc'].concrete(m).hex() if 'enc' in st else None}
             if not cj.accepted(v):
                 ctx.note('outside-domain')
                 return
             try:
-                enc = cj.ct.encode(v)
+                if variant:
+                    # any valid BER form of the message (built by the independent X.690 model)
+                    rw = x690.Rewriter(lambda name, n: ctx.choose(name, n), max_rewrites=1)
+                    enc = SymBytes(rw.emit(model.tree(v, cj.name, cj.module)))
+                    if any('len=3' in x for x in rw.log):
+                        ctx.note('indefinite-outer-length(outside: the property is about definite-length encodings)')
+                else:
+                    enc = cj.ct.encode(v)
             except Exception:
                 ctx.note('encode-raises(C01 territory)')
                 return
             msg = SymBytes(enc) + tail
+            if variant:
+                st['enc'] = SymBytes(enc)
             try:
                 dec, length = cj.spec.decode_with_length(cj.name, msg)
             except Exception as e:
@@ -184,6 +206,8 @@ def make_harness(job):
                 ctx.violation('value-differs-with-tail', str(e))
                 return
             ctx.prove('value-unchanged-by-tail', cond)
+            if variant and any('len=3' in x for x in rw.log):
+                return          # decode_length is defined for definite lengths only
             # the length probe on the full message
             try:
                 pl = cj.spec.decode_length(msg)
@@ -224,6 +248,8 @@ def replay(v):
     value = unjson(inp['value'])
     tail = bytes.fromhex(inp['tail'])
     enc = bytes(spec.encode(tpl['type'], value))
+    if inp.get('message'):
+        enc = bytes.fromhex(inp['message'])
     try:
         dec, length = spec.decode_with_length(tpl['type'], enc + tail)
         alone = spec.decode(tpl['type'], enc)
